@@ -184,6 +184,20 @@ func (e *verifC21Env) breakSource() {
 	os.Remove(e.s.dbPath)
 }
 
+// makeUnreadable: the database file can be opened but not read (natively: a directory sits at
+// its path, every read fails with EISDIR).
+func (e *verifC21Env) makeUnreadable() {
+	if verifSymbolic() {
+		verifC21Files[e.s.dbPath].unreadable = true
+		return
+	}
+	e.s.db.Close()
+	os.Remove(e.s.dbPath)
+	if err := os.Mkdir(e.s.dbPath, 0o755); err != nil {
+		panic(err)
+	}
+}
+
 // scratchLeft counts what Backup left behind in the database directory.
 func (e *verifC21Env) scratchLeft() int {
 	n := 0
@@ -252,9 +266,9 @@ func verifC21Request(format int, vacuum, compress bool) *proto.BackupRequest {
 }
 
 func verifC21ImageLen() int {
-	lens := []int{0, 1, 3}
+	lens := []int{0, 2}
 	if verifTier() == 1 {
-		lens = []int{0, 1, 2, 3, 5, 8}
+		lens = []int{0, 1, 2, 3, 5, 8, 16, 33}
 	}
 	return lens[verifChoice("imageLen", len(lens))]
 }
@@ -327,8 +341,9 @@ func VerifC21Sink() {
 	s.snapshotCAS.End()
 }
 
-// VerifC21Source: the artifact cannot be produced at all (database file gone, handle closed) or
-// must not be copied now (a snapshot holds the gate for longer than Backup waits).
+// VerifC21Source: the artifact cannot be produced at all (database file gone, handle closed),
+// cannot be read, or must not be copied now (a snapshot holds the gate for longer than Backup
+// waits).
 func VerifC21Source() {
 	verifPanicsAreViolations()
 	format := verifChoice("format", 3)
@@ -341,7 +356,8 @@ func VerifC21Source() {
 	br := verifC21Request(format, vacuum, compress)
 	want := e.expected(br)
 	w := &verifC21Sink{budget: -1}
-	if verifChoice("fault", 2) == 0 {
+	fault := verifChoice("fault", 3)
+	if fault == 0 {
 		e.breakSource()
 		err := s.Backup(context.Background(), br, w)
 		verifReach("source-broken")
@@ -349,10 +365,19 @@ func VerifC21Source() {
 		verifAssert("C21-scratch-files-removed", e.scratchLeft() == 0)
 		return
 	}
-	// a snapshot is running for the whole time: the database file may change under a copy
 	if format != 0 || vacuum {
-		return // only the direct copy of the database file needs the gate
+		return // the other two faults concern the direct copy of the database file only
 	}
+	if fault == 2 {
+		// the file opens but reading it fails: the copy loop's own error must come back
+		e.makeUnreadable()
+		err := s.Backup(context.Background(), br, w)
+		verifReach("source-unreadable")
+		verifAssert("C21-no-success-when-reading-the-source-fails", err != nil)
+		verifAssert("C21-snapshot-gate-released", s.snapshotCAS.Begin("verif") == nil)
+		return
+	}
+	// a snapshot is running for the whole time: the database file may change under a copy
 	verifAssume(s.snapshotCAS.Begin("snapshot") == nil)
 	err := s.Backup(context.Background(), br, w)
 	verifReach("gate-held-by-snapshot")
@@ -438,12 +463,16 @@ func VerifC21Twin() {
 var (
 	verifC21ErrSrc      = errors.New("verif db model: database is closed")
 	verifC21ErrNoEnt    = errors.New("verif file model: no such file or directory")
+	verifC21ErrRead     = errors.New("verif file model: read failed (is a directory)")
 	verifC21ErrClosed   = errors.New("verif file model: file already closed")
 	verifC21ErrGzLevel  = errors.New("verif gzip model: invalid compression level")
 	verifC21ErrGzClosed = errors.New("verif gzip model: write to closed writer")
 )
 
-type verifC21Node struct{ data []byte }
+type verifC21Node struct {
+	data       []byte
+	unreadable bool // every Read fails (natively: the path is a directory)
+}
 
 type verifC21Handle struct {
 	name   string
@@ -570,6 +599,9 @@ func verifC21FileRead(f *os.File, p []byte) (int, error) {
 	}
 	if len(p) == 0 {
 		return 0, nil
+	}
+	if h.node.unreadable {
+		return 0, verifC21ErrRead
 	}
 	if h.off >= len(h.node.data) {
 		return 0, io.EOF
